@@ -424,9 +424,11 @@ static int do_next(cron_expr* expr, struct tm* calendar, unsigned int dot) {
     second = calendar->tm_sec;
     update_second = find_next(expr->seconds, CRON_MAX_SECONDS, second, calendar, CRON_CF_SECOND, CRON_CF_MINUTE, empty_list, &res);
     if (0 != res) goto return_result;
-    if (second == update_second) {
-        push_to_fields_arr(resets, CRON_CF_SECOND);
-    }
+    /* The seconds must be reset whenever a higher order field moves forward, also when the
+     * second itself has just been advanced to a later match: otherwise "0-58/2 0 * * * *" asked
+     * at 23:59:57 yields 00:00:58 instead of 00:00:00. */
+    (void) update_second;
+    push_to_fields_arr(resets, CRON_CF_SECOND);
 
     minute = calendar->tm_min;
     update_minute = find_next(expr->minutes, CRON_MAX_MINUTES, minute, calendar, CRON_CF_MINUTE, CRON_CF_HOUR_OF_DAY, resets, &res);
